@@ -1,6 +1,7 @@
 package c05
 
 import (
+	"bufio"
 	"context"
 	"fmt"
 	"io"
@@ -34,6 +35,60 @@ const watchdog = 15 * time.Second
 type hostCounter struct {
 	inner http.Handler
 	m     sync.Map // host -> *int64
+	// panics injected through the ResponseWriter handed to the chain (see faultWriter)
+	writePanics, hijackPanics int64
+}
+
+// faultWriter is the ResponseWriter the chain gets for a flagged request: the client connection "blows up" once, either
+// when the gateway writes its own answer (WriteHeader/Write) or when the upgrade path hijacks the connection. Those
+// calls are made in the dispatcher's frame or below it but OUTSIDE the recover() of the upgrade-aware handler's
+// reverse-proxy branch, so the panic travels through the dispatcher's deferred calls after the request was admitted.
+type faultWriter struct {
+	http.ResponseWriter
+	onWrite, onHijack bool
+	fired             int32
+	hc                *hostCounter
+}
+
+func (f *faultWriter) blow(counter *int64, v interface{}) {
+	if atomic.CompareAndSwapInt32(&f.fired, 0, 1) {
+		atomic.AddInt64(counter, 1)
+		panic(v)
+	}
+}
+
+func (f *faultWriter) WriteHeader(code int) {
+	if f.onWrite {
+		f.blow(&f.hc.writePanics, http.ErrAbortHandler)
+	}
+	f.ResponseWriter.WriteHeader(code)
+}
+
+func (f *faultWriter) Write(b []byte) (int, error) {
+	if f.onWrite {
+		f.blow(&f.hc.writePanics, http.ErrAbortHandler)
+	}
+	return f.ResponseWriter.Write(b)
+}
+
+func (f *faultWriter) Flush() {
+	if fl, ok := f.ResponseWriter.(http.Flusher); ok {
+		fl.Flush()
+	}
+}
+
+func (f *faultWriter) Hijack() (net.Conn, *bufio.ReadWriter, error) {
+	if f.onHijack {
+		f.blow(&f.hc.hijackPanics, "verif: injected panic while hijacking the client connection for an upgrade")
+	}
+	return f.ResponseWriter.(http.Hijacker).Hijack()
+}
+
+func (f *faultWriter) CloseNotify() <-chan bool {
+	if cn, ok := f.ResponseWriter.(http.CloseNotifier); ok { //nolint
+		return cn.CloseNotify()
+	}
+	return make(chan bool)
 }
 
 func (h *hostCounter) ctr(host string) *int64 {
@@ -48,6 +103,12 @@ func (h *hostCounter) ServeHTTP(w http.ResponseWriter, r *http.Request) {
 	c := h.ctr(r.Host)
 	atomic.AddInt64(c, 1)
 	defer atomic.AddInt64(c, -1)
+	switch r.Header.Get(modeHeader) {
+	case "panic-writing-503":
+		w = &faultWriter{ResponseWriter: w, onWrite: true, hc: h}
+	case "panic-in-upgrade-hijack":
+		w = &faultWriter{ResponseWriter: w, onHijack: true, hc: h}
+	}
 	h.inner.ServeHTTP(w, r)
 }
 
@@ -115,7 +176,7 @@ func responder(rel *releases) bed.Responder {
 				fl.Flush()
 				time.Sleep(300 * time.Microsecond)
 			}
-		case "upgrade":
+		case "upgrade", "panic-in-upgrade-hijack":
 			// switch protocols, exchange a few bytes on the raw connection, then close it (exec/attach/port-forward shape)
 			hj, ok := w.(http.Hijacker)
 			if !ok {
@@ -175,6 +236,9 @@ func (f *faultRT) RoundTrip(req *http.Request) (*http.Response, error) {
 var endings = []string{
 	"ok", "slow", "5xx", "close-before-headers", "close-mid-body", "truncated", "transport-error", "listener-closed",
 	"no-ready-endpoint", "cancel", "transport-panic", "upload-then-5xx", "upgrade",
+	// panics that surface in the dispatcher's frame after admission (the reverse-proxy branch recovers its own):
+	"panic-writing-503",       // no ready endpoint, and the client connection blows up while the dispatcher writes the 503
+	"panic-in-upgrade-hijack", // upgrade accepted by the upstream, hijacking the client connection panics
 }
 
 type e2eEnv struct {
@@ -282,7 +346,7 @@ func (b *batch) startOn(mode, resource string) *pending {
 	method := "GET"
 	var body io.Reader
 	switch mode {
-	case "no-ready-endpoint":
+	case "no-ready-endpoint", "panic-writing-503":
 		resource = "offpods"
 	case "listener-closed":
 		resource = "dyingpods"
@@ -291,7 +355,7 @@ func (b *batch) startOn(mode, resource string) *pending {
 	}
 	req := bed.NewRequest(method, b.host, "/api/v1/namespaces/default/"+resource, b.env.tok, id, body)
 	req.Header.Set(modeHeader, mode)
-	if mode == "upgrade" {
+	if mode == "upgrade" || mode == "panic-in-upgrade-hijack" {
 		req.Header.Set("Connection", "Upgrade")
 		req.Header.Set("Upgrade", "SPDY/3.1")
 	}
@@ -428,7 +492,7 @@ func endToEnd(r *vkit.R) {
 	defer gw.Close()
 	env := &e2eEnv{r: r, gw: gw, hc: hc, tok: gw.Tokens.Add(&user.DefaultInfo{Name: "alice"})}
 
-	nEnd := count(r.Quick(), 78, 1300, 260)
+	nEnd := count(r.Quick(), 90, 1500, 300)
 	scen := []string{"type-toggle-tokenBucket", "type-toggle-exempt", "admitted-as-tokenBucket", "delete-re-add", "resize-down", "resize-up", "noop-update",
 		"endpoint-removed", "near-collision-sibling"}
 	nScen := count(r.Quick(), 27, 360, 90)
@@ -696,6 +760,8 @@ func endToEnd(r *vkit.R) {
 			r.Sample(witness())
 		}
 	})
+	r.Count("e2e_panics_injected_while_writing_503", int(atomic.LoadInt64(&hc.writePanics)))
+	r.Count("e2e_panics_injected_in_upgrade_hijack", int(atomic.LoadInt64(&hc.hijackPanics)))
 	r.Count("e2e_transport_panics_injected", int(atomic.LoadInt64(&env.rtPanics)))
 	r.Count("e2e_transport_errors_injected", int(atomic.LoadInt64(&env.rtFails)))
 }
